@@ -1,6 +1,7 @@
 package checks
 
 import (
+	"encoding/json"
 	"math"
 	"sort"
 
@@ -345,4 +346,12 @@ func trunc(ss []string, n int) []string {
 		return ss[:n]
 	}
 	return ss
+}
+
+func jsonStr(v any) string {
+	b, _ := json.Marshal(v)
+	if len(b) > 400 {
+		return string(b[:400]) + "..."
+	}
+	return string(b)
 }
